@@ -5,6 +5,7 @@ CONSTANTS
   KeepHist = TRUE
   GrowLen = 0
   AscSizes = {9, 10, 13, 17, 18, 26, 40, 44, 45, 46, 49, 50, 54, 58, 62, 66, 69, 70, 71, 72, 73, 74, 78, 82, 90, 98, 110, 130, 150}
+  Mut = {}
   BatchPct = 0
   GenLen = 0
 SPECIFICATION AscSpec
